@@ -771,12 +771,24 @@ Section PVMachine.
                    | None => o
                    end) w.
 
+  (* the last result stays "the memo entry of slot t" as long as that entry is still there *)
+  Definition keep_reg (w : list (Z * pvobj)) (r : option Z) : option Z :=
+    match r with
+    | Some t => match assoc_z t w with
+                | Some (_, _, _, m) => match assoc_z 3 m with Some _ => r | None => None end
+                | None => None
+                end
+    | None => None
+    end.
+
   Definition pvstep (wr : pvworld) (o : pvop) : pvworld * option (arr * Z) :=
     let (w, r) := wr in
     match o with
     | PNew s kind a link => (((s, (kind, a, link, [])) :: w, r), Some (([], []), 0))
-    | PSet s mode v => ((pv_assign s mode v w, None), Some (([], []), 0))
-    | POther s t => ((pv_update s (fun x => let '(k, a, _, _) := x in (k, a, t, [])) w, None), Some (([], []), 0))
+    | PSet s mode v => let w1 := pv_assign s mode v w in ((w1, keep_reg w1 r), Some (([], []), 0))
+    | POther s t =>
+        let w1 := pv_update s (fun x => let '(k, a, _, _) := x in (k, a, t, [])) w in
+        ((w1, keep_reg w1 r), Some (([], []), 0))
     | PWrite c =>
         match r with
         | Some s =>
